@@ -5,7 +5,7 @@
    statement of the documented layouts and is tied to the code by differential execution on all 45 formats).
    Every theorem below quantifies over the whole input domain of the conversion it is about. *)
 From Coq Require Import ZArith List Bool Lia.
-From DDSV Require Import model.Float model.Convert spec.SpecNum proofs.ConvertProofsA proofs.ConvertProofsB proofs.ConvertProofsC proofs.ConvertProofsD proofs.YuvProofs model.Encode proofs.FloatMono proofs.QuantProofs proofs.QuantProofs16.
+From DDSV Require Import model.Float model.Convert spec.SpecNum proofs.ConvertProofsA proofs.ConvertProofsB proofs.ConvertProofsC proofs.ConvertProofsD proofs.YuvProofs model.Encode proofs.FloatMono proofs.FloatTotal proofs.QuantProofs proofs.QuantProofs16.
 Import ListNotations.
 Local Open Scope Z_scope.
 
@@ -70,6 +70,14 @@ Proof. exact n8_from_spec. Qed.
 Theorem C04_f32_to_u16 : forall b k, 0 <= b < LIM -> 1 <= k <= 65535 ->
   (b < T16 k -> fp_n16 (f32_of_bits b) <= k - 1) /\ (T16 k <= b -> k <= fp_n16 (f32_of_bits b)) /\ Z.abs (T16 k - ideal_boundary 65535 k) <= 1.
 Proof. exact n16_from_spec. Qed.
+(* ... and outside that range, so that EVERY 32-bit pattern is decided: negative values, -0, -infinity and negative NaNs
+   give 0; 2^40 up to the largest finite value and +infinity give the maximum; positive NaNs give 0 *)
+Theorem C04_f32_to_u8_outside : forall b, 0 <= b < 2 ^ 32 ->
+  (2147483648 <= b -> fp_n8 (f32_of_bits b) = 0) /\ (LIM <= b <= 2139095040 -> fp_n8 (f32_of_bits b) = 255) /\ (2139095040 < b < 2147483648 -> fp_n8 (f32_of_bits b) = 0).
+Proof. exact n8_from_outside. Qed.
+Theorem C04_f32_to_u16_outside : forall b, 0 <= b < 2 ^ 32 ->
+  (2147483648 <= b -> fp_n16 (f32_of_bits b) = 0) /\ (LIM <= b <= 2139095040 -> fp_n16 (f32_of_bits b) = 65535) /\ (2139095040 < b < 2147483648 -> fp_n16 (f32_of_bits b) = 0).
+Proof. exact n16_from_outside. Qed.
 
 Example C04_ex_f11 : fp16_n16 14337 = 32800 /\ nearest 32799 (1025 * 65535) 2048.
 Proof. exact fp16_n16_witness. Qed.
@@ -77,5 +85,5 @@ Example C04_ex_unorm : In (n5_n8, 5, 255) unorm_cases /\ n5_n8 31 = 255 /\ n5_n8
 Proof. split; [cbn; tauto|split; reflexivity]. Qed.
 
 Definition C04_all := (C04_unorm_nearest, C04_snorm8_nearest, C04_snorm16_nearest, C04_xr_nearest, C04_unorm_f32, C04_n16_f32, C04_s16_f32,
-  C04_small_floats, C04_rgb9995, C04_fp16, C04_fp16_n16_refuted, C04_yuv8_grey_axis, C04_yuv_wide_white_refuted, C04_f32_to_u8, C04_f32_to_u16).
+  C04_small_floats, C04_rgb9995, C04_fp16, C04_fp16_n16_refuted, C04_yuv8_grey_axis, C04_yuv_wide_white_refuted, C04_f32_to_u8, C04_f32_to_u16, C04_f32_to_u8_outside, C04_f32_to_u16_outside).
 Redirect "props/C04.assumptions" Print Assumptions C04_all.
